@@ -229,8 +229,11 @@ class MultiTrackLargeVocabularyNotelikeTokeniser:
                 tokens.append(
                     f"{TokenisationPrefixes.TIME_SIGNATURE.value}_{scaled:02}_{DEFAULT_TIME_SIGNATURE_NUMERATOR:02}")
 
-        # Close bar and handle rest buffer
-        if cur_time_bar > 0 and cur_bar_capacity_remaining > 0:
+        # Close bar and handle rest buffer, also if notes still sound after the last onset (e.g. a note filling the whole bar)
+        end_time = prv_shift
+        if len(sequence_bar.abs._messages) > 0:
+            end_time += sequence_bar.get_sequence_duration()
+        while (cur_time_bar > 0 or cur_time < end_time) and cur_bar_capacity_remaining > 0:
             _apply_rest(cur_bar_capacity_remaining)
 
         # Update state dictionary
